@@ -1,7 +1,7 @@
 (* C06 — resolvers receive exactly the spec-coerced argument values.
    Only property theorems here: each is closed by [exact], its statement is
    pinned by [Check] and its assumptions are printed. *)
-From AG Require Import Base ArgCoerce ArgCoerceProofs.
+From AG Require Import Base ArgCoerce ArgCoerceProofs ArgCoerceDyn ArgCoerceDynProofs.
 Open Scope N_scope.
 
 (* The heart: for EVERY input type descriptor (scalars, enums, lists, Option,
@@ -78,15 +78,17 @@ Theorem C06_check_quiet : forall sig args vds vars strict,
     check_c06 sig args vds vars strict (impl_request sig args vds vars strict) = 0.
 Proof. exact check_quiet. Qed.
 
-(* known findings: the full statement is false of the faithful model *)
-Theorem C06_refuted_omitted_var_default :
+(* the former finding "omitted variable bound to an argument with a default"
+   (fixed in /repo d9e053e): the witness now receives the default, in both modes *)
+Theorem C06_omitted_var_default_fixed :
   wf_case w1_sig w1_args w1_vds [] = true /\ static_ok w1_sig w1_args w1_vds = true /\
-  known_class w1_sig w1_args w1_vds [] = K_ARG_DEFAULT /\
+  known_class w1_sig w1_args w1_vds [] = 0 /\
   spec_request w1_sig w1_args w1_vds [] = Ok [(10, TInt 5%Z)] /\
-  impl_request w1_sig w1_args w1_vds [] true = Err 2 /\
-  impl_request w1_sig w1_args w1_vds [] false = Err 2.
-Proof. exact refuted_arg_default. Qed.
+  impl_request w1_sig w1_args w1_vds [] true = Ok [(10, TInt 5%Z)] /\
+  impl_request w1_sig w1_args w1_vds [] false = Ok [(10, TInt 5%Z)].
+Proof. exact arg_default_fixed. Qed.
 
+(* known findings: the full statement is false of the faithful model *)
 Theorem C06_refuted_enum_string :
   wf_case w2_sig w2_args [] [] = true /\ static_ok w2_sig w2_args [] = true /\
   known_class w2_sig w2_args [] [] = K_ENUM_STRING /\
@@ -135,6 +137,56 @@ Theorem C06_nonvacuous :
       (12, TInt 5%Z)].
 Proof. exact nonvacuous. Qed.
 
+(* ---- dynamic schemas: ctx.args of a dynamic resolver (collect_field) against
+   CoerceArgumentValues.  Outside the two dynamic classes (a supplied value that
+   coercion would change / a request the specification rejects) every declared
+   argument is present or absent exactly as specified and holds the specified
+   value: literal, variable, omitted variable -> argument default, variable
+   default, explicit null, whatever other arguments are written. *)
+Theorem C06_dynamic_exact : forall sig args vds vars,
+    nodup_args args = true ->
+    static_ok sig args vds = true ->
+    dyn_known sig args vds vars = 0 ->
+    dres_eqv (dyn_request sig args vds vars false) (spec_raw sig args vds vars) = true.
+Proof. exact dyn_exact. Qed.
+
+Theorem C06_dynamic_sound : forall sig args vds vars strict r,
+    nodup_args args = true ->
+    static_ok sig args vds = true ->
+    dyn_known sig args vds vars = 0 ->
+    dyn_request sig args vds vars strict = Ok r ->
+    exists l, spec_request sig args vds vars = Ok l /\
+              rawlist_eqv r (map (fun kv => (fst kv, raw_of (snd kv))) l) = true.
+Proof. exact dyn_sound. Qed.
+
+Theorem C06_dynamic_refuted_raw_value :
+  (wf_case dw_li [(10, IInt 1%Z)] [] [] = true /\ static_ok dw_li [(10, IInt 1%Z)] [] = true /\
+   dyn_known dw_li [(10, IInt 1%Z)] [] [] = DK_SHAPE /\
+   dyn_request dw_li [(10, IInt 1%Z)] [] [] true = Ok [(10, Some (XInt 1%Z))] /\
+   spec_raw dw_li [(10, IInt 1%Z)] [] [] = Ok [(10, Some (XList [XInt 1%Z]))]) /\
+  (wf_case dw_obj [(10, IObj [(31, IInt 1%Z)])] [] [] = true /\ static_ok dw_obj [(10, IObj [(31, IInt 1%Z)])] [] = true /\
+   dyn_known dw_obj [(10, IObj [(31, IInt 1%Z)])] [] [] = DK_SHAPE /\
+   dyn_request dw_obj [(10, IObj [(31, IInt 1%Z)])] [] [] true = Ok [(10, Some (XObj [(31, XInt 1%Z)]))] /\
+   spec_raw dw_obj [(10, IObj [(31, IInt 1%Z)])] [] [] = Ok [(10, Some (XObj [(31, XInt 1%Z); (32, XInt 7%Z)]))]).
+Proof. exact dyn_refuted_shape. Qed.
+
+Theorem C06_dynamic_refuted_invalid_executed :
+  (wf_case dw_i [(10, IInt 2147483648%Z)] [] [] = true /\ static_ok dw_i [(10, IInt 2147483648%Z)] [] = true /\
+   dyn_known dw_i [(10, IInt 2147483648%Z)] [] [] = DK_INVALID /\
+   dyn_request dw_i [(10, IInt 2147483648%Z)] [] [] true = Ok [(10, Some (XInt 2147483648%Z))] /\
+   spec_raw dw_i [(10, IInt 2147483648%Z)] [] [] = Err 0) /\
+  (wf_case dw_obj dw_bad_args dw_vds [] = true /\ static_ok dw_obj dw_bad_args dw_vds = true /\
+   dyn_known dw_obj dw_bad_args dw_vds [] = DK_INVALID /\
+   dyn_request dw_obj dw_bad_args dw_vds [] true = Ok [(10, Some (XObj [(31, XStr false 77)]))] /\
+   spec_raw dw_obj dw_bad_args dw_vds [] = Err 0).
+Proof. exact dyn_refuted_invalid. Qed.
+
+Theorem C06_dynamic_nonvacuous :
+  wf_case dw_add dw_add_args dw_vds [] = true /\ nodup_args dw_add_args = true /\
+  static_ok dw_add dw_add_args dw_vds = true /\ dyn_known dw_add dw_add_args dw_vds [] = 0 /\
+  dyn_request dw_add dw_add_args dw_vds [] true = Ok [(10, Some (XInt 7%Z)); (12, Some (XInt 1%Z))].
+Proof. exact dyn_nonvacuous. Qed.
+
 Check C06_parse_is_coercion : forall t x,
     wf_rty t = true -> wf_xv x = true -> dev t x = 0 -> parse t (Some (erase1 x)) = coerce t x.
 Check C06_static : forall sig args vds vars,
@@ -156,10 +208,15 @@ Print Assumptions C06_fast_exact.
 Print Assumptions C06_no_invalid.
 Print Assumptions C06_strict_accepts_coercible_partial.
 Print Assumptions C06_check_quiet.
-Print Assumptions C06_refuted_omitted_var_default.
+Print Assumptions C06_omitted_var_default_fixed.
 Print Assumptions C06_refuted_enum_string.
 Print Assumptions C06_refuted_list_null.
 Print Assumptions C06_refuted_unknown_field.
 Print Assumptions C06_refuted_oneof_extra.
 Print Assumptions C06_refuted_var_decl.
 Print Assumptions C06_nonvacuous.
+Print Assumptions C06_dynamic_exact.
+Print Assumptions C06_dynamic_sound.
+Print Assumptions C06_dynamic_refuted_raw_value.
+Print Assumptions C06_dynamic_refuted_invalid_executed.
+Print Assumptions C06_dynamic_nonvacuous.
